@@ -15,7 +15,8 @@ def mktree(rnd, base, with_dropins=True, broken=0.08):
     for r in roots:
         if 'sub/deep' in subs[r] and 'sub' not in subs[r]:
             subs[r].append('sub')
-    names = rnd.sample(['a.container', 'b.container', 'web.container', 'tpl@.container', 'tpl@i1.container', 'tpl@i2.container', 'v.volume', 'n.network'], rnd.randint(1, 5))
+    names = rnd.sample(['a.container', 'b.container', 'web.container', 'tpl@.container', 'tpl@i1.container', 'tpl@i2.container', 'v.volume', 'n.network',
+                        'tpl@a@b.container', 'x.y@i.container', 'tpl@i.1.container', 'vt@.volume', 'vt@x.volume'], rnd.randint(1, 5))
     for n in names:
         for r in rnd.sample(roots, rnd.randint(1, len(roots))):
             d = os.path.join(r, rnd.choice(subs[r])).rstrip('/')
@@ -32,8 +33,10 @@ def mktree(rnd, base, with_dropins=True, broken=0.08):
         if not with_dropins:
             continue
         dn = [n + '.d']
-        if '@' in n and not n.startswith('tpl@.'):
-            dn.append('tpl@.container.d')
+        stem, ext = n.rsplit('.', 1)
+        if '@' in stem and stem.split('@', 1)[0] and stem.split('@', 1)[1]:
+            # a template instance also takes the drop-ins of its template: <base>@.<type>.d, the base ending at the FIRST '@'
+            dn.append(stem.split('@', 1)[0] + '@.' + ext + '.d')
         for ddir in dn:
             for conf in rnd.sample(['10-a.conf', '20-b.conf', '05-z.conf', 'x.conf', 'notconf.txt'], rnd.randint(0, 3)):
                 for r in rnd.sample(roots, rnd.randint(1, len(roots))):
